@@ -420,7 +420,12 @@ func (c *FnCtx) execLoop(st *State, node ast.Node, label string, bodyNode ast.No
 	// 4. one iteration
 	it := h.clone()
 	it.assume(guard)
-	if len(ls.Inv) > 0 && !c.inTrial[node] {
+	entryReachable := true
+	if len(ls.Inv) > 0 && !c.inTrial[node] && len(c.inTrial) == 0 {
+		// a loop on a path that the case split (or a guard) excludes is legitimately unreachable
+		entryReachable = !c.quickCheckT(st.pc, "false", 1, []string{"z3-new"})
+	}
+	if len(ls.Inv) > 0 && !c.inTrial[node] && entryReachable {
 		// reachability of the loop body under the invariant (a contradictory invariant or callee contract would
 		// make every obligation inside the loop vacuous)
 		c.addObl(&Obligation{Name: fmt.Sprintf("%s/loop%d/body-reachable", c.key, ord), Kind: "vacuity", Descr: "loop body reachable under its invariant",
@@ -455,7 +460,7 @@ func (c *FnCtx) execLoop(st *State, node ast.Node, label string, bodyNode ast.No
 		} else {
 			ends = []*State{b}
 		}
-		if len(ls.Inv) > 0 && !c.inTrial[node] && len(ends) > 0 {
+		if len(ls.Inv) > 0 && !c.inTrial[node] && len(ends) > 0 && entryReachable {
 			var pcs []string
 			for _, e := range ends {
 				pcs = append(pcs, e.pcTerm())
